@@ -28,9 +28,9 @@ DEFAULT_SEED = 20260926
 NPROC = os.cpu_count() or 16
 
 TIERS = {
-    # explore_rounds: list of (first worker id, workers, runs per worker, concurrency bias %)
-    "quick": dict(explore=[(0, 12, 1500, 30), (100, 4, 700, 90)], seconds_cap=60, sweeps=1, hash_orders=8, determinism_runs=150, miri_seeds=0, max_minimise=3),
-    "thorough": dict(explore=[(0, 12, 1500, 30), (100, 4, 700, 90), (1000, 12, 40000, 30), (2000, 4, 12000, 90)], seconds_cap=480, sweeps=8, hash_orders=64, determinism_runs=400, miri_seeds=16, max_minimise=6),
+    # explore: list of (first worker id, workers, runs per worker, concurrency bias %, restart-before-run %)
+    "quick": dict(explore=[(0, 10, 3000, 30, 75), (50, 2, 2000, 30, 10), (100, 4, 1400, 90, 75)], seconds_cap=90, sweeps=1, hash_orders=8, determinism_runs=150, miri_seeds=0, max_minimise=3, fresh_sample=48),
+    "thorough": dict(explore=[(0, 10, 3000, 30, 75), (50, 2, 2000, 30, 10), (100, 4, 1400, 90, 75), (1000, 10, 40000, 30, 75), (1050, 2, 30000, 30, 10), (2000, 4, 12000, 90, 75)], seconds_cap=540, sweeps=8, hash_orders=64, determinism_runs=400, miri_seeds=16, max_minimise=6, fresh_sample=256),
 }
 
 
@@ -497,10 +497,10 @@ def run_check(tier, seed):
         out = os.path.join(work, "hash_%d.json" % i)
         jobs.append(("hashorder%d" % i, [BIN, "hashorder", "--seed", str(seed), "--index", str(i), "--out", out], out))
     explore_ids = []
-    for (w0, nw, runs, conc) in cfg["explore"]:
+    for (w0, nw, runs, conc, rpct) in cfg["explore"]:
         for w in range(w0, w0 + nw):
             out = os.path.join(work, "explore_%d.json" % w)
-            jobs.append(("explore%d" % w, [BIN, "explore", "--seed", str(seed), "--worker", str(w), "--runs", str(runs), "--seconds", str(cfg["seconds_cap"]), "--conc", str(conc), "--watchdog", "30", "--out", out], out))
+            jobs.append(("explore%d" % w, [BIN, "explore", "--seed", str(seed), "--worker", str(w), "--runs", str(runs), "--seconds", str(cfg["seconds_cap"]), "--conc", str(conc), "--reset-pct", str(rpct), "--sample-fresh", str(cfg["fresh_sample"]), "--watchdog", "30", "--out", out], out))
             explore_ids.append(w)
     # determinism self-check: two extra copies of worker 0 (prefix of its runs), digests compared
     det_outs = []
@@ -624,9 +624,9 @@ def run_check(tier, seed):
         for ans, w, run in lst:
             if ans != coldans:
                 # re-run that worker up to the first evaluation of the key to obtain its history
-                (w0, nw, runs_, conc) = [e for e in cfg["explore"] if e[0] <= w < e[0] + e[1]][0]
+                (w0, nw, runs_, conc, rpct) = [e for e in cfg["explore"] if e[0] <= w < e[0] + e[1]][0]
                 out = os.path.join(work, "report_%d.json" % w)
-                subprocess.run([BIN, "explore", "--seed", str(seed), "--worker", str(w), "--runs", str(run + 1), "--conc", str(conc), "--report-key", k, "--out", out], stdout=subprocess.PIPE, stderr=subprocess.PIPE, timeout=1200)
+                subprocess.run([BIN, "explore", "--seed", str(seed), "--worker", str(w), "--runs", str(run + 1), "--conc", str(conc), "--reset-pct", str(rpct), "--sample-fresh", "0", "--report-key", k, "--out", out], stdout=subprocess.PIPE, stderr=subprocess.PIPE, timeout=1200)
                 d = json.load(open(out))
                 for v in d["violations"]:
                     if v["obligation"] == "X" and v["key"] == k:
@@ -638,6 +638,40 @@ def run_check(tier, seed):
         miri_stats, miri_viols, miri_errs = run_miri(cfg["miri_seeds"])
         harness.extend(miri_errs)
     MIRI_RESULT["stats"] = miri_stats
+
+    # a sample of evaluations from every worker against the same query alone in a really fresh
+    # process (not just after the in-process restart hook)
+    from concurrent.futures import ThreadPoolExecutor
+    samples = []
+    for d in explore:
+        for smp in d.get("fresh_sample", []):
+            samples.append((smp["key"], smp["ans"], d["worker"], smp["run"]))
+    keys = sorted(set(k for k, _, _, _ in samples))
+    if keys and not harness:
+        with ThreadPoolExecutor(max_workers=NPROC) as ex:
+            list(ex.map(sim.cold, keys))
+    FRESH["compared"] = 0
+    FRESH["distinct_keys"] = len(keys)
+    fresh_bad = []
+    for k, ans, w, run in samples:
+        if harness:
+            break
+        c = sim.cold(k)
+        FRESH["compared"] += 1
+        if c[0] + c[1] != ans:
+            fresh_bad.append((k, ans, w, run, c[0] + c[1]))
+    for k, ans, w, run, coldans in fresh_bad[:3]:
+        (w0, nw, runs_, conc, rpct) = [e for e in cfg["explore"] if e[0] <= w < e[0] + e[1]][0]
+        out = os.path.join(work, "report_f_%d.json" % w)
+        subprocess.run([BIN, "explore", "--seed", str(seed), "--worker", str(w), "--runs", str(run + 1), "--conc", str(conc), "--reset-pct", str(rpct), "--sample-fresh", "0", "--report-key", k, "--report-run", str(run), "--out", out], stdout=subprocess.PIPE, stderr=subprocess.PIPE, timeout=1200)
+        try:
+            d = json.load(open(out))
+        except Exception:  # noqa
+            continue
+        for v in d["violations"]:
+            if v["key"] == k:
+                cands.append({"obligation": "X" if v["obligation"] == "X" else v["obligation"], "key": k, "detail": "fresh-process sample: worker %d run %d answered %s, a fresh process answers %s" % (w, run, ans, coldans), "history": v["history"], "source": "fresh-process sample"})
+                break
 
     if harness:
         write_evidence(tier, seed, t0, explore, sweeps, hashres, det_ok, det_n, cross_compared, cross_keys_multi, [], [], build_s, harness)
@@ -745,6 +779,7 @@ def sweep_candidate(v, d):
 
 
 MIRI_RESULT = {"stats": None}
+FRESH = {"compared": 0, "distinct_keys": 0}
 
 
 def write_evidence(tier, seed, t0, explore, sweeps, hashres, det_ok, det_n, cross_compared, cross_keys_multi, confirmed, known_hits, build_s, harness):
@@ -797,6 +832,7 @@ def write_evidence(tier, seed, t0, explore, sweeps, hashres, det_ok, det_n, cros
         "comparisons_with_earlier_evaluations_in_process": tot("comparisons"),
         "refinement_checks_from_ym_vs_new": tot("r_checks") + sum(s["evaluations"] for s in sweeps),
         "value_handle_evaluations": tot("handle_evaluations"),
+        "fresh_process_sample": {"evaluations_compared_with_the_same_query_alone_in_a_new_process": FRESH["compared"], "distinct_keys": FRESH["distinct_keys"]},
         "cross_process": {"pool_keys_seen_in_2plus_processes": cross_keys_multi, "comparisons": cross_compared, "processes": len(explore)},
         "fault_kinds_fired": {
             "F1_F2_refused_requests_total": tot("refusals"),
